@@ -35,6 +35,12 @@ pub enum Mutation {
     EndpointPort,
     EndpointAdded,
     EndpointDevice,
+    /// the same endpoints in another order: 0 swap first and last, 1 rotate, 2 reverse
+    EndpointsReordered(u8),
+    EndpointRemoved,
+    EndpointDuplicated,
+    /// another sub-field of an endpoint: 0 NAT type, 1 coordinators, 2 last_updated, 3 endpoint id
+    EndpointField(u8),
     Version,
     UserId,
     PublicKey(u8),
@@ -88,7 +94,7 @@ fn uid_of(spec: &RecSpec) -> UserId {
 fn build(spec: &RecSpec, memo: &mut std::collections::HashMap<String, PeerDHTRecord>) -> (PeerDHTRecord, bool) {
     let k = keys();
     let ki = spec.key as usize % 4;
-    let n_ep = spec.endpoints.clamp(1, 3);
+    let n_ep = spec.endpoints.clamp(1, 5);
     let eps: Vec<PeerEndpoint> = (0..n_ep).map(|i| endpoint(i, 8080, "dev")).collect();
     let name = if spec.name == 0 { None } else { Some(format!("user-{}", spec.name)) };
     let ttl = spec.ttl.clamp(1, MAX_TTL_SECONDS);
@@ -157,6 +163,40 @@ fn build(spec: &RecSpec, memo: &mut std::collections::HashMap<String, PeerDHTRec
         }
         Mutation::EndpointDevice => {
             r.endpoints[0] = endpoint(0, 8080, "dew");
+            genuine = false;
+        }
+        Mutation::EndpointsReordered(how) => {
+            let before = r.endpoints.clone();
+            let n = r.endpoints.len();
+            match how % 3 {
+                0 => r.endpoints.swap(0, n - 1),
+                1 => r.endpoints.rotate_left(1),
+                _ => r.endpoints.reverse(),
+            }
+            if postcard::to_stdvec(&before).ok() != postcard::to_stdvec(&r.endpoints).ok() {
+                genuine = false;
+            }
+        }
+        Mutation::EndpointRemoved => {
+            if r.endpoints.len() >= 2 {
+                r.endpoints.pop();
+                genuine = false;
+            }
+        }
+        Mutation::EndpointDuplicated => {
+            let e = r.endpoints[0].clone();
+            r.endpoints.push(e);
+            genuine = false;
+        }
+        Mutation::EndpointField(f) => {
+            let last = r.endpoints.len() - 1;
+            let e = &mut r.endpoints[last];
+            match f % 4 {
+                0 => e.nat_type = NatType::Symmetric,
+                1 => e.coordinator_nodes.push("coord-b".to_string()),
+                2 => e.last_updated += 1,
+                _ => e.endpoint_id = EndpointId::from_uuid(uuid::Uuid::from_u128(0x9999)),
+            }
             genuine = false;
         }
         Mutation::Version => {
@@ -265,6 +305,10 @@ fn mutation() -> impl Strategy<Value = Mutation> {
         2 => Just(Mutation::EndpointPort),
         1 => Just(Mutation::EndpointAdded),
         1 => Just(Mutation::EndpointDevice),
+        2 => (0u8..3).prop_map(Mutation::EndpointsReordered),
+        1 => Just(Mutation::EndpointRemoved),
+        1 => Just(Mutation::EndpointDuplicated),
+        1 => (0u8..4).prop_map(Mutation::EndpointField),
         1 => Just(Mutation::Version),
         1 => Just(Mutation::UserId),
         1 => (0u8..4).prop_map(Mutation::PublicKey),
@@ -275,7 +319,7 @@ fn mutation() -> impl Strategy<Value = Mutation> {
 }
 fn rec_spec() -> impl Strategy<Value = RecSpec> {
     // small pools for (key, seq, ts) so that genuine and forged records collide on the cache key
-    (0u8..4, prop_oneof![8 => Just(Uid::Derived), 2 => (0u8..4).prop_map(Uid::OfKey), 1 => any::<u8>().prop_map(Uid::Random)], 1u8..3, 0u8..3, 1u8..=3, prop_oneof![Just(300u32), Just(1u32), Just(86_400u32), 2u32..86_400], 0u16..2, mutation())
+    (0u8..4, prop_oneof![8 => Just(Uid::Derived), 2 => (0u8..4).prop_map(Uid::OfKey), 1 => any::<u8>().prop_map(Uid::Random)], 1u8..3, 0u8..3, prop_oneof![2 => 1u8..=3, 1 => 4u8..=5], prop_oneof![Just(300u32), Just(1u32), Just(86_400u32), 2u32..86_400], 0u16..2, mutation())
         .prop_map(|(key, uid, seq, name, endpoints, ttl, ts_back, mutation)| RecSpec { key, uid, seq, name, endpoints, ttl, ts_back, mutation })
 }
 
